@@ -566,6 +566,82 @@ pub fn obs_forward(store: &AnnotationStore) -> Sx {
     .unwrap_or_else(panic_sx)
 }
 
+/// The iterator adaptors of the API (AnnotationIterator, DataIterator, KeyIterator,
+/// ResourcesIterator) and the derived per-item lookups: each is documented as the union of the
+/// per-item answers, chronological and duplicate-free.  Handles in the order the API yields them.
+/// Layout (see coq/Run/C01.v obs_adaptors):
+///   ( (for all live annotations / for those with an even handle:
+///        (annotations in_targets_one in_targets_max data data_as_metadata keys keys_as_metadata resources resources_as_metadata))
+///     (per dataset: (data.annotations data.annotations_as_metadata data.keys keys.annotations keys.annotations_as_metadata
+///                    (per data item: (resources resources_as_metadata datasets)) (per key: (resources resources_as_metadata datasets))))
+///     (resources.annotations resources.annotations_as_metadata) )
+pub fn obs_adaptors(store: &AnnotationStore) -> Sx {
+    guard(|| {
+        let hs = |v: Vec<usize>| nats(v);
+        let pairs = |x: Vec<(usize, usize)>| l(x.into_iter().map(|(p, q)| l(vec![a(p as i64), a(q as i64)])).collect());
+        let mut by_sel = Vec::new();
+        for even in [false, true] {
+            let sel = || store.annotations().filter(move |x| !even || x.handle().as_usize() % 2 == 0);
+            by_sel.push(l(vec![
+                hs(sel().annotations().map(|x| x.handle().as_usize()).collect()),
+                hs(sel().annotations_in_targets(AnnotationDepth::One).map(|x| x.handle().as_usize()).collect()),
+                hs(sel().annotations_in_targets(AnnotationDepth::Max).map(|x| x.handle().as_usize()).collect()),
+                pairs(sel().data().map(|d| (d.set().handle().as_usize(), d.handle().as_usize())).collect()),
+                pairs(sel().data_as_metadata().map(|d| (d.set().handle().as_usize(), d.handle().as_usize())).collect()),
+                pairs(sel().keys().map(|k| (k.set().handle().as_usize(), k.handle().as_usize())).collect()),
+                pairs(sel().keys_as_metadata().map(|k| (k.set().handle().as_usize(), k.handle().as_usize())).collect()),
+                hs(sel().resources().map(|r| r.handle().as_usize()).collect()),
+                hs(sel().resources_as_metadata().map(|r| r.handle().as_usize()).collect()),
+            ]));
+        }
+        let mut sets = Vec::new();
+        for h in 0..store.datasets_len() {
+            match store.dataset(AnnotationDataSetHandle::new(h)) {
+                None => sets.push(DEAD),
+                Some(set) => {
+                    let mut per_data = Vec::new();
+                    for x in 0..set.as_ref().data_len() {
+                        per_data.push(match set.annotationdata(AnnotationDataHandle::new(x)) {
+                            None => DEAD,
+                            Some(d) => l(vec![
+                                hs(d.resources().map(|r| r.handle().as_usize()).collect()),
+                                hs(d.resources_as_metadata().map(|r| r.handle().as_usize()).collect()),
+                                hs(d.datasets().map(|r| r.handle().as_usize()).collect()),
+                            ]),
+                        });
+                    }
+                    let mut per_key = Vec::new();
+                    for k in 0..set.as_ref().keys_len() {
+                        per_key.push(match set.key(DataKeyHandle::new(k)) {
+                            None => DEAD,
+                            Some(key) => l(vec![
+                                hs(key.resources().into_iter().map(|r| r.handle().as_usize()).collect()),
+                                hs(key.resources_as_metadata().into_iter().map(|r| r.handle().as_usize()).collect()),
+                                hs(key.datasets().into_iter().map(|r| r.handle().as_usize()).collect()),
+                            ]),
+                        });
+                    }
+                    sets.push(l(vec![
+                        hs(set.data().annotations().map(|x| x.handle().as_usize()).collect()),
+                        hs(set.data().annotations_as_metadata().map(|x| x.handle().as_usize()).collect()),
+                        hs(set.data().keys().map(|x| x.handle().as_usize()).collect()),
+                        hs(set.keys().annotations().map(|x| x.handle().as_usize()).collect()),
+                        hs(set.keys().annotations_as_metadata().map(|x| x.handle().as_usize()).collect()),
+                        l(per_data),
+                        l(per_key),
+                    ]));
+                }
+            }
+        }
+        let res = l(vec![
+            hs(store.resources().annotations().map(|x| x.handle().as_usize()).collect()),
+            hs(store.resources().annotations_as_metadata().map(|x| x.handle().as_usize()).collect()),
+        ]);
+        l(vec![l(by_sel), l(sets), res])
+    })
+    .unwrap_or_else(panic_sx)
+}
+
 pub fn obs_ids(store: &AnnotationStore) -> Sx {
     guard(|| {
         let one = |o: Option<usize>| -> Sx {
